@@ -26,8 +26,9 @@ def sh(cmd, cwd=None, env=None, timeout=1800):
     return p.returncode, p.stdout
 
 
-def run_check(pid, wt):
-    env = dict(os.environ, DESPER_REPO=wt, VERIF_SEED='0', VERIF_EVIDENCE_DIR='/tmp/seed-evidence')
+def run_check(pid, wt, target=None):
+    env = dict(os.environ, DESPER_REPO=wt, VERIF_SEED='0', VERIF_EVIDENCE_DIR='/tmp/seed-evidence',
+               VERIF_SHRINK_BUDGET='120' if pid == target else '0', VERIF_NO_COVERAGE='1')
     rc, out = sh(f'./check {pid} --tier quick', cwd=VERIF, env=env)
     viol = [l for l in out.splitlines() if l.startswith('VIOLATION')]
     detail = [l.strip() for l in out.splitlines() if l.startswith('  ')][:2]
@@ -69,11 +70,11 @@ def main():
         math_touched = any(f.endswith('math.py') for f in touched)
         results = {}
         others = [p for p in pids if p != 'C18']
-        with concurrent.futures.ThreadPoolExecutor(max_workers=8) as ex:
-            for pid, rc, viol, detail in ex.map(lambda p: run_check(p, wt), others):
+        with concurrent.futures.ThreadPoolExecutor(max_workers=10) as ex:
+            for pid, rc, viol, detail in ex.map(lambda p: run_check(p, wt, target), others):
                 results[pid] = {'exit': rc, 'violation': viol[:1], 'detail': detail}
         if math_touched or target == 'C18':
-            pid, rc, viol, detail = run_check('C18', wt)
+            pid, rc, viol, detail = run_check('C18', wt, target)
             results[pid] = {'exit': rc, 'violation': viol[:1], 'detail': detail}
         meta['checks'] = results
         meta['caught_by'] = sorted(p for p, r in results.items() if r['exit'] == 1)
@@ -94,7 +95,7 @@ def main():
     if pathlib.Path(patch).resolve() != (d / 'patch.diff').resolve():
         shutil.copy(patch, d / 'patch.diff')
     text = pathlib.Path(demo_src).read_text()
-    text = re.sub(r'''(['"])/tmp/mut2?-C\d+\1''', '__import__("os").environ.get("DESPER_REPO", "/repo")', text)
+    text = re.sub(r'''(['"])/tmp/mut[23]?-C\d+\1''', '__import__("os").environ.get("DESPER_REPO", "/repo")', text)
     (d / 'demo.py').write_text(text)
     (d / 'meta.json').write_text(json.dumps(meta, indent=1))
     print(json.dumps({k: meta[k] for k in ('property', 'confirmed', 'tests_with_patch', 'demo_with_patch',
